@@ -120,3 +120,58 @@ pub proof fn lemma_purge_nothing(w: &World, o: &World, gone: Seq<u32>)
         assert(o.smask(s) - gone.to_set() =~= o.smask(s));
     }
 }
+
+// delete_all: the handles collected from the entities join are all current, pairwise on distinct indices,
+// so the batch kill runs to the end and nothing stays occupied
+//@props C02 C01
+pub proof fn lemma_delete_all(a: &Allocator, d: Seq<Entity>)
+    requires
+        a.wf(), a.headroom(),
+        d.len() == sorted_seq(a.alive@ + a.raised@).len(),
+        forall|j: int| 0 <= j < d.len() ==> (#[trigger] d[j]).0 == sorted_seq(a.alive@ + a.raised@)[j] && d[j].1.0@ == a.cur_gen(d[j].0),
+    ensures
+        all_legit(a, d),
+        a.abs().kill_stops_at(d, d.len()),
+        forall|i: u32| !(#[trigger] a.abs().kill_fold(d, d.len()).occ(i)),
+{
+    broadcast use axiom_sorted_seq;
+    let s = a.abs();
+    let occ = a.alive@ + a.raised@;
+    let ss = sorted_seq(occ);
+    assert forall|j: int| 0 <= j < d.len() implies s.current(#[trigger] d[j]) && s.legit(d[j]) by {
+        assert(ss.contains(ss[j]));
+        assert(occ.contains(d[j].0));
+        assert(a.occ(d[j].0));
+        lemma_cur_gen_is_hw(a, d[j].0);
+        assert(s.hwv(d[j].0) == a.hw(d[j].0));
+    }
+    // every prefix: the next handle is still current because its index is not among the earlier (strictly smaller) ones
+    assert forall|n: nat| n < d.len() implies (#[trigger] s.kill_fold(d, n)).current(d[n as int]) by {
+        lemma_kill_fold_frame(s, d, n);
+        let e = d[n as int];
+        assert(!in_prefix(d, n, e.0)) by {
+            if in_prefix(d, n, e.0) {
+                let k = choose|k: int| 0 <= k < n && k < d.len() && (#[trigger] d[k]).0 == e.0;
+                assert(ss[k] < ss[n as int]);
+            }
+        }
+        assert(s.current(e));
+        let f = s.kill_fold(d, n);
+        assert(f.alive.contains(e.0) == s.alive.contains(e.0));
+        assert(f.raised.contains(e.0) == s.raised.contains(e.0));
+        assert(f.hwv(e.0) == s.hwv(e.0));
+    }
+    lemma_kill_fold_frame(s, d, d.len());
+    let f = s.kill_fold(d, d.len());
+    assert forall|i: u32| !(#[trigger] f.occ(i)) by {
+        if s.occ(i) {
+            assert(occ.contains(i));
+            assert(ss.contains(i));
+            let k = choose|k: int| 0 <= k < ss.len() && ss[k] == i;
+            assert(d[k].0 == i);
+            assert(in_prefix(d, d.len(), i));
+        }
+        assert(f.alive.contains(i) == (s.alive.contains(i) && !in_prefix(d, d.len(), i)));
+        assert(f.raised.contains(i) == (s.raised.contains(i) && !in_prefix(d, d.len(), i)));
+    }
+}
